@@ -567,7 +567,9 @@ class QuasiNeutralitySolver(DiffEqSolver):
                                                                              constants.kN0, constants.rp, constants.deltaRN0))
 
         elif ('n0deriv' in kwargs):
-            def n0derivNormalised(r): return kwargs.pop('n0deriv')(r)/n0(r)
+            n0deriv = kwargs.pop('n0deriv')
+
+            def n0derivNormalised(r): return n0deriv(r)/n0(r)
 
         else:
             def n0derivNormalised(r): return init.n0deriv_normalised(r,
